@@ -9,7 +9,9 @@ LEAN_MODULES = ["Pff.Props.C02"]
 PROP_MODULE = "Pff.Props.C02"
 THEOREMS = ["Pff.RSSpec.C02_encode_length", "Pff.RSSpec.C02_short_as_padded", "Pff.RSSpec.C02_pad_not_erasure", "Pff.RSSpec.C02_decode_unique",
             "Pff.RSSpec.C02_contract_consistent", "Pff.RSSpec.C02_decode_exact_errors", "Pff.RSSpec.C02_decode_exact_erasures",
-            "Pff.RSSpec.C11_codecA_good", "Pff.RSSpec.C11_codecB_good"]
+            "Pff.RSSpec.C11_codecA_good", "Pff.RSSpec.C11_codecB_good",
+            "Pff.RSSpec.C02_decode_within_radius",
+            "Pff.RSSpec.C02_decode_full_block_within_radius"]
 MODELLED = [("pyFileFixity/lib/eccman.py", "ECCMan.decode"), ("pyFileFixity/lib/eccman.py", "ECCMan.encode"),
             ("pyFileFixity/lib/eccman.py", "ECCMan.pad"), ("pyFileFixity/lib/eccman.py", "ECCMan.rpad")]
 TRUSTED_BASE = [
@@ -85,10 +87,16 @@ def run(oc, tier, seed, model_available, escalate):
             f = sum(1 for b in rx if b == ec)
             e_max = 0 if mode == "only_erasures" else (budget - f) // 2
             e = rng.choice([0, e_max, rng.randint(0, e_max)])
+            if i % 6 == 5 and mode == "erasures":
+                # just beyond the bound (2e+f = n-k+1 or +2): nothing is required of the result (the oracle does not judge it), but model
+                # and facade must agree on it - the facade refuses library results whose corrections exceed the capacity
+                e = e_max + 1
+                oc.count("just beyond the errata bound (correspondence only)")
             cand = [p for p in range(L) if rx[p] != ec]
             pos = rng.sample(cand, min(e, len(cand)))
             rx = cu.corrupt(rng, rx, pos, avoid=ec)
-            dkw = {"enable_erasures": True, "erasures_char": ec, "only_erasures": mode == "only_erasures"}
+            # `only_erasures` alone implies erasure detection (as repaired): same behaviour with or without `enable_erasures`
+            dkw = {"enable_erasures": not (mode == "only_erasures" and i % 2 == 0), "erasures_char": ec, "only_erasures": mode == "only_erasures"}
             within = 2 * len(pos) + f <= nsym
             if mode == "only_erasures" and f == 0:
                 pass  # early return path
